@@ -40,6 +40,8 @@ class Probe:
     def call(self, label, f, *a, **k):
         from vf.pyxl2 import KernelPreconditionViolated
         self.calls += 1; self.labels.add(label.split('|')[0])
+        if getattr(self, 'progress', None):
+            self.progress(label)
         try:
             with contextlib.redirect_stdout(io.StringIO()):
                 r = f(*a, **k)
